@@ -1,10 +1,12 @@
 // C10 harness: drives the four real nearest-neighbour structures of /repo/src through the line
 // protocol (DESIGN Appendix A, engine `nn`).
 //
-//   nn kind=<linear|sqrt|gnat|gnatnts> metric=<abs1|l1|linf|table6>
-//      [deg=<d> min=<d> max=<d> leaf=<n> cache=<n> rebal=<0|1> seed=<n>]        (gnat kinds)
+//   nn kind=<linear|sqrt|gnat|gnatnts> metric=<abs1|abs3|l1|linf|table6>
+//      [deg=<d> min=<d> max=<d> leaf=<n> cache=<n> rebal=<0|1> seed=<n> noise=<0|1>]        (gnat kinds)
+//   integrity | print (gnat kinds: integrityCheck(), operator<<)
+//   noisefree  (release the heap-layout noise blocks, see below)
 //   add <pt> | addv <k> <pt>*k | rm <pt> | clear | size | list
-//   nst <pt> | nk <pt> <k> | nr <pt> <r>
+//   nst <pt> | nk <pt> <k> | nr <pt> <r> | sorted (reportsSortedResults) | setdist <metric> (same dimension)
 //
 // <pt> is one integer for abs1/table6 and two for l1/linf.  All metrics are integer valued, so the
 // doubles the code computes are exact and are printed as integers.
@@ -157,7 +159,16 @@ int main()
     else if (metric == "l1") { dim = 2; df = [](const P &a, const P &b) { return (double)(std::labs(a.x - b.x) + std::labs(a.y - b.y)); }; }
     else if (metric == "linf") { dim = 2; df = [](const P &a, const P &b) { return (double)std::max(std::labs(a.x - b.x), std::labs(a.y - b.y)); }; }
     else if (metric == "table6") { dim = 1; df = [](const P &a, const P &b) { return (double)TABLE6[a.x][b.x]; }; }
+    else if (metric == "abs3") { dim = 1; df = [](const P &a, const P &b) { return (double)((std::labs(a.x - b.x) + 2) / 3); }; }
     else { std::cout << "bad-header\n"; return 2; }
+    // the metrics `setdist` may switch between (same dimension, same point domain)
+    auto metricByName = [&](const std::string &m, Dist &out) -> bool {
+        if (m == "abs1" && dim == 1 && metric != "table6") { out = [](const P &a, const P &b) { return (double)std::labs(a.x - b.x); }; return true; }
+        if (m == "abs3" && dim == 1 && metric != "table6") { out = [](const P &a, const P &b) { return (double)((std::labs(a.x - b.x) + 2) / 3); }; return true; }
+        if (m == "l1" && dim == 2) { out = [](const P &a, const P &b) { return (double)(std::labs(a.x - b.x) + std::labs(a.y - b.y)); }; return true; }
+        if (m == "linf" && dim == 2) { out = [](const P &a, const P &b) { return (double)std::max(std::labs(a.x - b.x), std::labs(a.y - b.y)); }; return true; }
+        return false;
+    };
     const bool table = metric == "table6";
 
     auto num = [&](const char *k, long dflt) -> long {
@@ -182,6 +193,18 @@ int main()
     }
     else { std::cout << "bad-header\n"; return 2; }
     nn->setDistanceFunction(df);
+
+    // heap-layout noise (header `noise=1`): blocks of the sizes the GNAT allocates (nodes, leaf buffers) are
+    // allocated up front; the op `noisefree` releases them, so that (with the allocator in reuse mode) later
+    // tree allocations land BELOW earlier ones.  Nothing the property talks about may depend on this.
+    std::vector<void *> noiseBlocks;
+    if (num("noise", 0) != 0)
+    {
+        std::vector<size_t> sizes = {sizeof(Gnat::Node), sizeof(GnatN::Node)};
+        for (size_t c = 1; c <= 24; ++c) sizes.push_back(c * sizeof(P));
+        for (int rep = 0; rep < 6; ++rep)
+            for (size_t sz : sizes) noiseBlocks.push_back(::operator new(sz));
+    }
 
     // parse a point starting at token i
     auto pt = [&](const std::vector<std::string> &t, size_t &i, P &out) -> bool {
@@ -274,6 +297,39 @@ int main()
         }
         else if (op == "size" && t.size() == 1)
             fin(std::to_string(nn->size()));
+        else if ((op == "integrity" || op == "print") && t.size() == 1 && (gnat || gnatn))
+        {
+            // the two debugging members of the GNATs: integrityCheck() (asserts are ON in this harness; it prints
+            // only when it found an inconsistency) and operator<< (must not crash; non-empty iff there is a tree)
+            std::ostringstream cap;
+            std::streambuf *old = std::cout.rdbuf(cap.rdbuf());
+            size_t nrem0 = gnat ? gnat->removed_.size() : gnatn->removed_.size();
+            if (op == "integrity") { if (gnat) gnat->integrityCheck(); else gnatn->integrityCheck(); }
+            else { if (gnat) cap << *gnat; else cap << *gnatn; }
+            std::cout.rdbuf(old);
+            size_t nrem1 = gnat ? gnat->removed_.size() : gnatn->removed_.size();
+            bool tree = gnat ? gnat->tree_ != nullptr : gnatn->tree_ != nullptr;
+            bool ok = nrem0 == nrem1 && (op == "integrity" ? cap.str().empty() : (cap.str().empty() == !tree));
+            fin(ok ? "ok" : "debug-member-misbehaved");
+        }
+        else if (op == "noisefree" && t.size() == 1)
+        {
+            for (void *b : noiseBlocks) ::operator delete(b);
+            noiseBlocks.clear();
+            fin("ok");
+        }
+        else if (op == "sorted" && t.size() == 1)
+            fin(nn->reportsSortedResults() ? "1" : "0");
+        else if (op == "setdist" && t.size() == 2)
+        {
+            // setDistanceFunction AFTER elements were added (GNAT: rebuilds the tree with the new function)
+            Dist nf;
+            if (!metricByName(t[1], nf)) { std::cout << "bad-op\n"; continue; }
+            df = nf;
+            nn->setDistanceFunction(df);
+            bool same = nn->getDistanceFunction()(P{3, 1}, P{8, 5}) == df(P{3, 1}, P{8, 5});
+            fin(same ? "ok" : "getDistanceFunction-differs");
+        }
         else if (op == "list" && t.size() == 1)
         {
             std::vector<P> lst{SENT};
@@ -312,5 +368,6 @@ int main()
         else
             std::cout << "bad-op\n";
     }
+    for (void *b : noiseBlocks) ::operator delete(b);
     return 0;
 }
